@@ -1,6 +1,7 @@
 import NopModel.Lemmas.RoundTrip
 import NopModel.Lemmas.Minimal
 import NopModel.Lemmas.LangSound
+import NopModel.Lemmas.LangMinimal
 /-! C03 — the encoder emits exactly the documented wire format, minimal integer classes.
 The model encoder is the schema-directed reference the implementation is compared with byte
 for byte on every run; these theorems state what that reference guarantees. -/
@@ -98,6 +99,18 @@ theorem C03_in_documented_language (t : Ty) (hwf : t.wf = true) (v : Val) (h : H
   have h3 : s.bytes = bs := rfl
   rw [h3, List.append_nil] at hb
   rw [hb]; exact hl
+
+/-- **The encoder's output is a shortest encoding.** For a handle-free type, no word of the
+documented language that denotes the same value - whichever integer classes it uses for values,
+lengths, counts, ids, hashes and indices, however it pads, orders or duplicates table and map
+entries - is shorter than what `Write` emits: minimal integer classes everywhere, no padding, no
+superfluous entries. (Handles are excluded because `Size` reserves nine bytes for a reference
+that may encode in fewer, and table entries are padded to `Size`.) -/
+theorem C03_shortest_encoding (t : Ty) (hf : t.handleFree = true) (v : Val) (h : HChan) (bs : Bytes) (h' : HChan)
+    (hv : valid t v = true) (he : encode t v h = .ok (bs, h')) (hs : List Int) (bs' : Bytes)
+    (hl : Lang hs t v bs') : bs.length ≤ bs'.length := by
+  rw [encode_length_eq t hf v h bs h' hv he]
+  exact min_LPre_of (min_LangP hs t hf) v bs' hl
 
 example : encInt .i32 (-65) = [0x84, 0xbf] ∧ encInt .u64 65536 = [0x82, 0, 0, 1, 0] := by decide
 
